@@ -11,12 +11,13 @@ Theorem C16_root_only_edits :
 Proof. exact root_only_edits_leaf. Qed.
 Print Assumptions C16_root_only_edits.
 
-(** … and transaction form, for any tx (several messages, MsgExec trees of any depth, any grants):
+(** … and transaction form, for any tx (several messages, trees of MsgExec and contract-execution
+    carriers of any depth, any grants, either variant of the wasm wrapper guard):
     if the sudoers differ after DeliverTx, the tx was accepted and carried an edit whose sender is
     the root in force before the tx. *)
 Theorem C16_sudoers_change_only_by_root :
-  forall g s tx, ~ same_sudoers (fst (deliver g s tx)) s ->
-  snd (deliver g s tx) = true /\
+  forall cf s tx, ~ same_sudoers (fst (deliver cf s tx)) s ->
+  snd (deliver cf s tx) = true /\
   exists m, In m (leaves_tx tx) /\ is_edit m = true /\ signer m = root s.
 Proof. exact deliver_sudoers_change. Qed.
 Print Assumptions C16_sudoers_change_only_by_root.
@@ -24,40 +25,96 @@ Print Assumptions C16_sudoers_change_only_by_root.
 (** A gated operation succeeds if and only if its sender is the root or a currently listed
     contract (exactly CheckPermissions) and its payload is valid. *)
 Theorem C16_gated_iff_permitted :
-  forall g s k a pv,
-  (exists s', exec_msg g s (Gated k a pv) = Some s') <-> permitted s a = true /\ pv = true.
+  forall cf s k a pv,
+  (exists s', exec_msg cf s (Gated k a pv) = Some s') <-> permitted s a = true /\ pv = true.
 Proof. exact gated_iff_permitted. Qed.
 Print Assumptions C16_gated_iff_permitted.
 
 (** Wrapped in authz exec: the same condition on the INNER signer, plus the authz condition
     (inner signer is the grantee itself, or granted that message type to the grantee). *)
 Theorem C16_gated_in_exec_iff :
-  forall g s ge k a pv,
-  (exists s', exec_msg g s (Exec ge [Gated k a pv]) = Some s') <->
-  (a = ge \/ has_grant g a ge (KGated k) = true) /\ permitted s a = true /\ pv = true.
+  forall cf s ge k a pv,
+  (exists s', exec_msg cf s (Exec ge [Gated k a pv]) = Some s') <->
+  (a = ge \/ has_grant (c_grants cf) a ge (KGated k) = true) /\ permitted s a = true /\ pv = true.
 Proof. exact gated_exec_iff. Qed.
 Print Assumptions C16_gated_in_exec_iff.
 
-(** authz never adds authority: every privileged leaf of an accepted tx — at any MsgExec depth,
-    under any set of grants — had, in the state it ran in, the authority its handler asks for. *)
+(** Dispatched by a contract (MsgExecuteContract on a contract that re-dispatches): the contract is
+    the sender, so exactly its own listing counts — a listed sudo CONTRACT does get its gated
+    message through, nobody gets one through in somebody else's name. *)
+Theorem C16_gated_in_wasm_iff :
+  forall cf s sd c k a pv,
+  (exists s', exec_msg cf s (Wasm sd c [Gated k a pv]) = Some s') <->
+  owner_ok cf c sd = true /\ a = c /\ permitted s a = true /\ pv = true.
+Proof. exact gated_wasm_iff. Qed.
+Print Assumptions C16_gated_in_wasm_iff.
+
+(** A contract dispatching a MsgExec: the exec's grantee must be the contract itself (the guard of
+    handleSdkMessage applies to the WRAPPER), and the authz condition is then about the contract. *)
+Theorem C16_gated_in_wasm_exec_iff :
+  forall cf s sd c ge k a pv, c_wguard cf = true ->
+  ((exists s', exec_msg cf s (Wasm sd c [Exec ge [Gated k a pv]]) = Some s') <->
+   owner_ok cf c sd = true /\ ge = c /\
+   (a = c \/ has_grant (c_grants cf) a c (KGated k) = true) /\ permitted s a = true /\ pv = true).
+Proof. exact gated_wasm_exec_iff. Qed.
+Print Assumptions C16_gated_in_wasm_exec_iff.
+
+(** carriers never add authority: every privileged leaf of an accepted tx — at any depth of MsgExec
+    and contract-execution wrappers, under any set of grants — had, in the state it ran in, the
+    authority its handler asks for. *)
 Theorem C16_every_executed_leaf_authorised :
-  forall g s tx s', deliver g s tx = (s', true) ->
+  forall cf s tx s', deliver cf s tx = (s', true) ->
   forall l1 m l2, leaves_tx tx = l1 ++ m :: l2 ->
   exists s1, run_leaves s l1 = Some s1 /\ authorised (root s1) (contracts s1) m.
 Proof. exact deliver_each_leaf_authorised. Qed.
 Print Assumptions C16_every_executed_leaf_authorised.
 
+(** WHO REALLY AUTHORISED.  Every message of an accepted tx, wrappers included, at any depth and in
+    any mix of authz and contract carriers, is presented by the principal its carrier has
+    authenticated (tx signature / grantee itself or a granter of the grantee / the executing contract,
+    itself called by its owner) [wa_b] … *)
+Theorem C16_accepted_tree_well_authorised :
+  forall cf s tx s', c_wguard cf = true -> deliver cf s tx = (s', true) ->
+  wa_tx cf tx = true /\ signable cf tx = true.
+Proof. exact deliver_well_authorised. Qed.
+Print Assumptions C16_accepted_tree_well_authorised.
+
+(** … so the sender of every privileged leaf of an accepted tx is a CURRENT sudoer in the state
+    the leaf ran in AND stands behind it: it signed the tx, or has issued an authz grant, or is a
+    contract that the tx executes. *)
+Theorem C16_privileged_leaf_sudoer_and_backed :
+  forall cf s tx s', c_wguard cf = true -> deliver cf s tx = (s', true) ->
+  forall l1 l l2, leaves_tx tx = l1 ++ l :: l2 ->
+  (exists s1, run_leaves s l1 = Some s1 /\ authorised (root s1) (contracts s1) l) /\
+  (exists m, In m tx /\ is_contract cf (signer m) = false /\
+             backed cf (signer m) (executed_contracts m) (signer l)).
+Proof. exact deliver_leaf_sudoer_and_backed. Qed.
+Print Assumptions C16_privileged_leaf_sudoer_and_backed.
+
+(** The variant of app/wasmext handleSdkMessage that skips the signer guard for MsgExec wrappers
+    ([c_wguard = false]; Gen/C16Oblig.v ties the flag to the tree) does NOT have the property: a
+    contract that is neither root nor listed, with no grant anywhere, lists itself. *)
+Theorem C16_unguarded_wrapper_refuted :
+  exists cf s tx s',
+    c_wguard cf = false /\ c_grants cf = [] /\
+    permitted s 7 = false /\ deliver cf s tx = (s', true) /\ permitted s' 7 = true /\
+    wa_tx cf tx = false /\
+    (exists l, In l (leaves_tx tx) /\
+       forall m, In m tx -> ~ backed cf (signer m) (executed_contracts m) (signer l)).
+Proof. exact unguarded_wrapper_refuted. Qed.
+Print Assumptions C16_unguarded_wrapper_refuted.
+
 (** A rejected privileged message changes no state (sudoers and the three gated stores). *)
 Theorem C16_rejected_changes_nothing :
-  forall g s tx, snd (deliver g s tx) = false -> fst (deliver g s tx) = s.
+  forall cf s tx, snd (deliver cf s tx) = false -> fst (deliver cf s tx) = s.
 Proof. exact deliver_rejected. Qed.
 Print Assumptions C16_rejected_changes_nothing.
 
 (** … including what earlier messages of the same tx had already written. *)
 Theorem C16_failing_message_rolls_back_tx :
-  forall g s pre m post,
-  (forall s1, run_msgs g s pre = Some s1 -> exec_msg g s1 m = None) ->
-  deliver g s (pre ++ m :: post) = (s, false).
+  forall cf s pre m post,
+  (forall s1, run_msgs cf s pre = Some s1 -> exec_msg cf s1 m = None) ->
+  deliver cf s (pre ++ m :: post) = (s, false).
 Proof. exact deliver_atomic. Qed.
 Print Assumptions C16_failing_message_rolls_back_tx.
 
@@ -78,27 +135,27 @@ Print Assumptions C16_removed_contract_unpermitted.
 (** … an account without permission gets no privileged message through from the very next tx,
     directly or wrapped … *)
 Theorem C16_unpermitted_rejected :
-  forall g s tx a m r, permitted s a = false -> leaves_tx tx = m :: r -> signer m = a ->
-  deliver g s tx = (s, false).
+  forall cf s tx a m r, permitted s a = false -> leaves_tx tx = m :: r -> signer m = a ->
+  deliver cf s tx = (s, false).
 Proof. exact unpermitted_first_leaf_rejected. Qed.
 Print Assumptions C16_unpermitted_rejected.
 
 (** … and stays out over any history in which no message lets it back in: all its txs are rejected. *)
 Theorem C16_stale_permission_over_histories :
-  forall g a h s, permitted s a = false -> no_grant_to a h = true ->
-  permitted (fst (run_history g s h)) a = false /\
-  Forall2 (fun mine ok => mine = true -> ok = false) (first_leaf_by a h) (snd (run_history g s h)).
+  forall cf a h s, permitted s a = false -> no_grant_to a h = true ->
+  permitted (fst (run_history cf s h)) a = false /\
+  Forall2 (fun mine ok => mine = true -> ok = false) (first_leaf_by a h) (snd (run_history cf s h)).
 Proof. exact stale_over_history. Qed.
 Print Assumptions C16_stale_permission_over_histories.
 
 (** The whole property as evaluated on traces: every history of the model, from every state and
     under every set of grants, satisfies the trace property [P] … *)
 Theorem C16_model_satisfies_property :
-  forall g h s, P (root s) (contracts s) (model_trace g s h).
+  forall cf, c_wguard cf = true -> forall h s, P cf (root s) (contracts s) (model_trace cf s h).
 Proof. exact model_satisfies_P. Qed.
 Print Assumptions C16_model_satisfies_property.
 
 (** … and the boolean checker run on implementation traces is sound for that same [P]. *)
-Theorem C16_checker_sound : forall t cr cc, Pb cr cc t = true -> P cr cc t.
+Theorem C16_checker_sound : forall cf t cr cc, Pb cf cr cc t = true -> P cf cr cc t.
 Proof. exact Pb_sound. Qed.
 Print Assumptions C16_checker_sound.
